@@ -139,19 +139,36 @@ func vpH_C02_bigmerge() {
 	}
 	sa, sb := vpBuild(a, 1025), vpBuild(b, []uint32{1025, 1024}[vpChoice("modeB", 2)])
 	dr := roaring.New()
+	var drb *roaring.Bitmap
 	var surv []*vpDoc
-	for d := range a {
-		if d%97 == 13 {
+	if vpChoice("survivors", 2) == 1 {
+		// exactly 1024 survivors, all of them holding term x: the boundary of the
+		// adaptive chunk size (cardinality / 1024 + 1 chunks)
+		drb = roaring.New()
+		for d := 0; d < 88; d++ {
 			dr.Add(uint32(d))
-		} else {
-			surv = append(surv, a[d])
+			drb.Add(uint32(d))
 		}
+		surv = append(append(surv, a[88:]...), b[88:]...)
+	} else {
+		for d := range a {
+			if d%97 == 13 {
+				dr.Add(uint32(d))
+			} else {
+				surv = append(surv, a[d])
+			}
+		}
+		surv = append(surv, b...)
 	}
-	surv = append(surv, b...)
-	mb, _ := vpMergeBytes([]*Segment{sa, sb}, []*roaring.Bitmap{dr, nil}, 1025)
+	mb, _ := vpMergeBytes([]*Segment{sa, sb}, []*roaring.Bitmap{dr, drb}, 1025)
 	m := vpLoad(mb)
 	n := len(surv)
 	half := uint64(n / 2)
-	vpBigCheck("bigmerge", m, surv, []uint64{1, half - 1, half, half + 2, 1023, 1024, 1025, uint64(n) - 1})
+	targets := []uint64{1, half - 1, half, half + 2, 1023, 1024, 1025, uint64(n) - 1}
+	if n == 1024 {
+		// non-decreasing, nothing after the first target beyond the end
+		targets = []uint64{1, half - 1, half, half + 2, 1022, 1023, 1024, 1025}
+	}
+	vpBigCheck("bigmerge", m, surv, targets)
 	vpReach("C02 bigmerge end")
 }
